@@ -36,6 +36,10 @@ structure Event where
   srcFid : Option Nat                -- file `src` was bound to when the call was issued
   dstFid : Option Nat                -- file `dst` was bound to when the call was issued
   pending : Bool                     -- the party had created names in flight (see `inFlightH`)
+  flight : List (Bytes × Bytes) := []   -- those names, as entries (directory, name)
+  flightFid : Option Nat := none     -- the file the first of them was bound to
+  srcRoot : Option Nat := none       -- the initial file `srcFid` descends from (see `originIn`)
+  dstRoot : Option Nat := none       -- the initial file `dstFid` descends from
 deriving Repr, DecidableEq
 
 structure Shared where
@@ -67,12 +71,15 @@ def World.lookupE (w : World) (e : Option (Bytes × Bytes)) : Option Nat := e.bi
 def inFlightUpd (acc : List (Handle × Bytes)) : Call × Res → List (Handle × Bytes)
   | (.openExcl d n, .ok _) => acc ++ [(d, n)]
   | (.renameat _ _ d2 n2, .ok _) => acc.filter (· != (d2, n2))
-  | (.unlinkat d n, _) => acc.filter (· != (d, n))
+  | (.unlinkat d n, r) =>
+    if acc.contains (d, n) then acc.filter (· != (d, n))     -- roll-back of the created name
+    else if isOk r then []                                   -- the original is gone: the copy is the message now
+    else acc
   | _ => acc
 
 /-- The names (directory handle, name) a party created with `O_CREAT|O_EXCL` and has neither
-committed (a successful rename of the message onto the name) nor rolled back (`unlinkat` of the
-name) yet. -/
+committed (a successful rename of the message onto the name, or - when the name holds a complete
+copy - a successful `unlinkat` of the original) nor rolled back (`unlinkat` of the name) yet. -/
 def inFlightH (tr : List (Call × Res)) : List (Handle × Bytes) := tr.foldl inFlightUpd []
 
 def handlesDirPath (hs : List Obj) (d : Handle) : Option Bytes :=
@@ -83,6 +90,23 @@ def handlesDirPath (hs : List Obj) (d : Handle) : Option Bytes :=
 /-- The same, as (directory path, name). -/
 def PState.inFlight (p : PState) : List (Bytes × Bytes) :=
   (inFlightH p.trace).filterMap fun x => (handlesDirPath p.handles x.1).map fun q => (q, x.2)
+
+/-! ## lineage: which initial file an entry descends from (read from the global history) -/
+
+/-- The commit of a copy: a successful `unlinkat`, by a party that has a created name in flight, of an
+entry other than that name (`maildir_write`: the original after the new file is complete; `maildir_move`
+across devices: the source after the copy).  From then on the copy IS the message. -/
+def Event.commits (e : Event) : Bool :=
+  match e.call, e.src with
+  | .unlinkat .., some x => isOk e.res && !e.flight.isEmpty && !e.flight.contains x
+  | _, _ => false
+
+/-- One event of the history: a committed copy inherits the origin of the file it supersedes. -/
+def originStep (o : Nat → Nat) (e : Event) : Nat → Nat := fun g =>
+  if e.commits && e.flightFid == some g then e.srcRoot.getD g else o g
+
+/-- `originIn log g`: the file `g` descends from by the copy commits of `log` (itself if it is no copy). -/
+def originIn (log : List Event) : Nat → Nat := log.foldl originStep id
 
 /-! ## steps and schedules -/
 
@@ -98,7 +122,10 @@ def stepEvent (s : Shared) (i : Nat) (p : PState) (c : Call) : Event :=
   let w := s.view p
   { party := i, call := c, res := predict w c, src := callSrc w c, dst := callDst w c,
     srcFid := w.lookupE (callSrc w c), dstFid := w.lookupE (callDst w c),
-    pending := !(inFlightH p.trace).isEmpty }
+    pending := !(inFlightH p.trace).isEmpty,
+    flight := p.inFlight, flightFid := w.lookupE p.inFlight.head?,
+    srcRoot := (w.lookupE (callSrc w c)).map (originIn s.log),
+    dstRoot := (w.lookupE (callDst w c)).map (originIn s.log) }
 
 def stepCall (s : Shared) (i : Nat) (p : PState) (c : Call) (k : Res → Prog Bool) : Shared :=
   { fs := (stepView s p c).shared, parties := s.parties.set i (stepLocal s p c k), log := s.log ++ [stepEvent s i p c] }
@@ -156,6 +183,15 @@ flight (a `discard`, or the client's delete), or replaced by a rename onto it. -
 def Event.destroys (e : Event) (f : Nat) : Bool :=
   isOk e.res && ((!e.call.isRename && !e.pending && e.srcFid == some f) || (e.call.isRename && e.dstFid == some f && e.srcFid != some f))
 
+/-- A version of the initial file `f0` was removed outright: its entry was unlinked by a party that had
+no copy of its own in flight (a `discard`, or the client's delete), or another file was renamed onto it. -/
+def Event.destroysRoot (e : Event) (f0 : Nat) : Bool :=
+  isOk e.res && ((!e.call.isRename && !e.pending && e.srcRoot == some f0) ||
+    (e.call.isRename && e.dstRoot == some f0 && e.srcFid != e.dstFid))
+
+/-- The lineage read from the history of a state. -/
+def Shared.origin (s : Shared) : Nat → Nat := originIn s.log
+
 /-! ## the exactly-once check on a final state (by content, for any kind of party) -/
 
 /-- All directory entries: (directory, name, file id). -/
@@ -178,8 +214,10 @@ def stageEntries (w : World) (c0 : Bytes) : List (Bytes × Bytes × Nat) :=
 def foreignInFlight (s : Shared) (a : Nat) : List (Bytes × Bytes) :=
   (s.parties.zipIdx.filter fun x => x.2 != a).flatMap fun x => x.1.inFlight
 
-/-- Isolation of the next call of party `a`: the entry it removes / binds is not a name another
-party has in flight, and it does not rename (treat as a message) a name it has in flight itself. -/
+/-- Isolation of the next call of party `a`: the entry it removes (`unlinkat`, source of `renameat`)
+and the entry a `renameat` replaces is not a name another party has in flight, and it does not rename
+(treat as a message) a name it has in flight itself.  Nothing is asked of an exclusive create: on a
+name somebody has in flight it fails with `EEXIST`. -/
 def isoStep (s : Shared) (a : Nat) : Bool :=
   match s.parties[a]? with
   | none => true
@@ -188,7 +226,7 @@ def isoStep (s : Shared) (a : Nat) : Bool :=
     | .ret _ => true
     | .call c _ =>
       let w := s.view p
-      let touched := (callSrc w c).toList ++ (callDst w c).toList
+      let touched := (callSrc w c).toList ++ (if c.isRename then (callDst w c).toList else [])
       touched.all (fun x => !(foreignInFlight s a).contains x) &&
         (!c.isRename || (callSrc w c).toList.all fun x => !p.inFlight.contains x)
 
